@@ -52,7 +52,28 @@ RULE = ("A case = tiny problem (8x8x8 model in one of 3 mappings, iso/VTI/"
         "data, misfit, n_observations, gradient bit-identical (with noise: "
         "identical NaN pattern and the deterministic identity of the noise "
         "type), saved simulation equal, dry-run = zeros of the API shapes, "
-        "errors only where the API raises the same error.  Non-trivial = "
+        "errors only where the API raises the same error.  Added after the "
+        "blind-spot audit: (1) stored simulations built from ANOTHER variant "
+        "of the problem (other model, one receiver less; states plain/"
+        "computed/misfit) than the survey and model files, so --load "
+        "(files ignored) and --clean (computed data removed + model file "
+        "put in) each have a result of their own; (2) gridding_opts single "
+        "cases and automatic-gridding combos always --save, and for dry / "
+        "forced-dry runs the grids (Simulation.get_grid: shape, origin, "
+        "widths) of the re-loaded CLI and API simulations are compared; "
+        "(3) override items cache_load / cache_save: cache together with a "
+        "different load / save (both in the file, both on the command line, "
+        "cache on the command line over load/save in the file): the cache "
+        "file is read and written, the other one neither read, overwritten "
+        "nor created; (4) reject: unknown key for every section x {as in "
+        "the context, alone in its section, among 1-3 valid keys at a "
+        "random position}, also with --load/--cache; (5) long aliases "
+        "--nproc/--layered/--verbose/--quiet, repeated -v (-vvv, -v -v), "
+        "--option=value; (6) lay-out of the file: the template of cli.rst "
+        "verbatim with exactly the generated keys un-commented (also "
+        "nothing un-commented), sections permuted, known sections without "
+        "keys, full-line # comments and blank lines between keys.  "
+        "Non-trivial = "
         "real (not dry) run with >=1 documented option beyond the context "
         "whose CLI result equals the API result; distinct by (config "
         "entries, flags, function, problem digest).")
@@ -84,6 +105,16 @@ ASSUMPTIONS = [
     "API call is equivalence, not a violation (class both_raise)",
     "emg3d.save/load of the result dictionaries is symmetric for CLI and "
     "reference (same format), so C17 round-trip defects cancel",
+    "a known section without keys (what the documented template gives when "
+    "nothing is un-commented), the order of the sections, full-line # "
+    "comments and blank lines have no meaning (reference ignores them)",
+    "cache given in the file together with --load/--save on the command "
+    "line is not generated (the two documented precedence rules conflict); "
+    "-n < 1 is not generated (not documented as valid input); console "
+    "output per verbosity level is not compared (levels not documented)",
+    "unknown options must be rejected also when a stored simulation is "
+    "loaded; any error ending the run without an output file counts as a "
+    "rejection (message text not demanded)",
 ]
 SHARDS = {'quick': 1, 'thorough': 16}
 
@@ -492,34 +523,139 @@ def _reset_logging():
                 pass
 
 
-def render_config(entries):
-    """entries: [section, key, text, deco]; sections in order of first use."""
+def _entry_line(key, text, deco):
+    if deco == 'raw':                 # literal line of cli.rst
+        return text
+    if deco == 'comment':
+        return f"{key} = {text}   # some comment"
+    if deco == 'tight':
+        return f"{key}={text}"
+    if deco == 'spaced':
+        # blanks around every separator (the documented formats are
+        # comma / semicolon separated lists; white space is stripped)
+        t2 = re.sub(r'\s*;\s*', ' ; ', text)
+        t2 = re.sub(r'\s*,\s*', ' , ', t2)
+        return f"{key}  =  {t2}"
+    return f"{key} = {text}"
+
+
+_TEMPLATE = None
+
+
+def rst_template():
+    """The example configuration file of docs/manual/cli.rst (tree under
+    test) as it is meant to be used: the literal block without its
+    indentation; "All values are commented out in this example; remove the
+    comment signs to use them"."""
+    global _TEMPLATE
+    if _TEMPLATE is None:
+        path = os.path.join(REPO, 'docs', 'manual', 'cli.rst')
+        lines, inblock = [], False
+        with open(path) as f:
+            for line in f:
+                if line.startswith('``emg3d.cfg``::'):
+                    inblock = True
+                    continue
+                if not inblock:
+                    continue
+                if line.strip() and not line.startswith('  '):
+                    break
+                lines.append(line[2:].rstrip('\n') if line.strip() else '')
+        while lines and not lines[0]:
+            lines.pop(0)
+        while lines and not lines[-1]:
+            lines.pop()
+        _TEMPLATE = lines
+    return list(_TEMPLATE)
+
+
+def render_config(entries, layout=None):
+    """entries: [section, key, text, deco].
+
+    layout None: only the sections that have entries, in order of first
+    use.  {'kind': 'rst'}: the documented template, verbatim, in which
+    exactly the lines of the given keys are un-commented (their value
+    replaced).  {'kind': 'free', 'order': [sections], 'empty': [sections],
+    'pattern': int}: sections in the given order, known sections without
+    any key (header only or header + commented-out keys), full-line `#`
+    comments and blank lines between the keys."""
+    layout = layout or {}
     order, by = [], {}
     for sec, key, text, deco in (e[:4] for e in entries):
         if sec not in by:
             by[sec] = []
             order.append(sec)
-        if deco == 'raw':                 # literal line of cli.rst
-            line = text
-        elif deco == 'comment':
-            line = f"{key} = {text}   # some comment"
-        elif deco == 'tight':
-            line = f"{key}={text}"
-        elif deco == 'spaced':
-            # blanks around every separator (the documented formats are
-            # comma / semicolon separated lists; white space is stripped)
-            t2 = re.sub(r'\s*;\s*', ' ; ', text)
-            t2 = re.sub(r'\s*,\s*', ' , ', t2)
-            line = f"{key}  =  {t2}"
-        else:
-            line = f"{key} = {text}"
-        by[sec].append(line)
+        by[sec].append((key, _entry_line(key, text, deco)))
+    kind = layout.get('kind')
+    if kind == 'rst':
+        out, sec, last = [], None, {}
+        todo = {s: list(v) for s, v in by.items()}
+        for line in rst_template():
+            m = re.match(r'^\[(\w+)\]\s*$', line)
+            if m:
+                sec = m.group(1)
+            m = re.match(r'^#\s([a-z_]+)\s*=', line)
+            if m and sec in todo:
+                hit = [x for x in todo[sec] if x[0] == m.group(1)]
+                if hit:
+                    todo[sec].remove(hit[0])
+                    line = hit[0][1]
+            out.append(line)
+            if sec is not None and line.strip():
+                last[sec] = len(out)
+        # keys the template does not hold (unknown keys): end of the section
+        for sec in sorted(todo, key=lambda x: -last.get(x, 0)):
+            rest = [x[1] for x in todo[sec]]
+            if not rest:
+                continue
+            if sec in last:
+                out[last[sec]:last[sec]] = rest
+            else:
+                out += ['', f"[{sec}]"] + rest
+        return "\n".join(out) + "\n"
+    if kind == 'free':
+        pat = int(layout.get('pattern', 0))
+        secs = [x for x in layout.get('order', []) if x in by or
+                x in layout.get('empty', [])]
+        secs += [x for x in order if x not in secs]
+        doc = doc_examples()
+        out = []
+        if pat & 1:
+            out += ["# emg3d configuration", "# -------------------", ""]
+        for sec in secs:
+            if pat & 2:
+                out += [f"# Section {sec}", "#"]
+            out.append(f"[{sec}]")
+            lines = [x[1] for x in by.get(sec, [])]
+            if sec not in by and pat & 4:
+                # everything of this section still commented out
+                lines = [f"# {k} = {doc[(s, k)][1] or ''}".rstrip()
+                         for (s, k) in doc if s == sec]
+            for i, line in enumerate(lines):
+                if pat & 8 and i % 2 == 0 and not line.startswith('#'):
+                    out.append("# # A note on the next parameter.")
+                out.append(line)
+                if pat & 16 and i % 2 == 1:
+                    out.append("")
+                if pat & 32 and i % 3 == 0:
+                    out.append("#")
+            out.append("")
+        return "\n".join(out)
     out = []
     for sec in order:
         out.append(f"[{sec}]")
-        out += by[sec]
+        out += [x[1] for x in by[sec]]
         out.append("")
     return "\n".join(out)
+
+
+# "-v, --verbose: increase verbosity; can be used multiple times",
+# "-q, --quiet: decrease verbosity" (emg3d --help)
+VERBOSITY_ARGS = {'-q': ['-q'], '-v': ['-v'], '-vv': ['-vv'],
+                  '-vvv': ['-vvv'], '-v -v': ['-v', '-v'],
+                  '--verbose': ['--verbose'], '--quiet': ['--quiet'],
+                  '--verbose --verbose': ['--verbose', '--verbose'],
+                  '-vvvv': ['-vvvv']}
 
 
 def cli_args(spec):
@@ -536,11 +672,18 @@ def cli_args(spec):
     elif t.get('fnflag') == 'long':
         args.append(long[fn])
     # 'none': default function (forward) without flag
+    long_ = bool(t.get('long'))       # documented long aliases
+    eq = bool(t.get('eq'))            # --option=value (argparse standard)
     for k, flag in TERM_FLAGS.items():
         if t.get(k) is not None:
-            args += [flag, str(t[k])]
+            if flag == '-n' and long_:
+                flag = '--nproc'
+            if eq and flag.startswith('--'):
+                args.append(f"{flag}={t[k]}")
+            else:
+                args += [flag, str(t[k])]
     if t.get('layered'):
-        args.append('-l')
+        args.append('--layered' if long_ else '-l')
     if t.get('clean'):
         args.append('--clean')
     if spec.get('dry'):
@@ -548,8 +691,8 @@ def cli_args(spec):
                     else '--dry-run')
     v = t.get('verbosity')
     if v is not None:
-        args += {'-q': ['-q'], '-v': ['-v'], '-vv': ['-vv']}.get(
-            v, ['--verbosity', str(v)])
+        args += VERBOSITY_ARGS.get(v) or (
+            [f'--verbosity={v}'] if eq else ['--verbosity', str(v)])
     args += list(t.get('extra', []))
     return args
 
@@ -907,6 +1050,36 @@ class Failure(Exception):
         self.details = details or {}
 
 
+def _same_grids(sa, sb):
+    """Computational grids (public Simulation.get_grid) of the simulation
+    saved by the CLI and of the one saved by the reference, both re-loaded:
+    same shape, origin and cell widths for every source-frequency pair.
+    -> number of distinct grids compared."""
+    seen = set()
+    for src, freq in sb._srcfreq:
+        gb = sb.get_grid(src, freq)
+        try:
+            ga = sa.get_grid(src, freq)
+        except Exception as e:
+            if _where(e) is None:
+                raise
+            raise Failure('saved_sim_differs:grid',
+                          f"grid of the saved simulation for ({src}, {freq})"
+                          f": {type(e).__name__}: {str(e)[:200]}")
+        if tuple(ga.shape_cells) != tuple(gb.shape_cells):
+            raise Failure('saved_sim_differs:grid',
+                          f"grid for ({src}, {freq}): shape {ga.shape_cells} "
+                          f"!= {gb.shape_cells} of the API's simulation")
+        for name, x, y in [('origin', ga.origin, gb.origin)] + [
+                (f'h[{i}]', ga.h[i], gb.h[i]) for i in range(3)]:
+            if not np.array_equal(np.asarray(x), np.asarray(y)):
+                raise Failure('saved_sim_differs:grid',
+                              f"grid for ({src}, {freq}): {name} differs "
+                              "from the API's simulation")
+        seen.add((tuple(gb.shape_cells), tuple(np.asarray(gb.origin))))
+    return len(seen)
+
+
 def check_noise(cli, api, noise, prob, survey_shape):
     """Forward run with the noise options: deterministic consequences."""
     opts = noise['opts']
@@ -1017,6 +1190,12 @@ def run_case(spec, rec=None, classify=True):
             return _run_case(spec, rec, wd, classify)
 
 
+def _file_digest(fn):
+    import hashlib
+    with open(fn, 'rb') as f:
+        return hashlib.sha1(f.read()).hexdigest()
+
+
 def _load_out(fn):
     import emg3d
     out = emg3d.load(fn, verb=0)
@@ -1031,7 +1210,7 @@ def _run_case(spec, rec, wd, classify):
     except Exception as e:
         raise HarnessError(f"cannot write the input files: {e!r}")
     cfgname = spec.get('cfgname', 'emg3d.cfg')
-    text = render_config(spec['config'])
+    text = render_config(spec['config'], spec.get('layout'))
     for sec in spec.get('extra_sections', []):
         text += f"\n[{sec}]\nsomething = 1\n"
     if not spec.get('nocfg'):
@@ -1086,6 +1265,8 @@ def _run_case(spec, rec, wd, classify):
         raise HarnessError("generator: real run with a process pool")
 
     # ---- the CLI -------------------------------------------------------
+    untouched = {rel: _file_digest(os.path.join(wd, rel))
+                 for rel in spec.get('untouched', [])}
     out = run_cli(spec, wd)
 
     # ---- the reference run ----------------------------------------------
@@ -1221,11 +1402,19 @@ def _run_case(spec, rec, wd, classify):
                           f"saved simulation differs from the API's at "
                           f"{d[0]}: {d[1]}")
         info['saved'] = True
+        if dry and not _is_layered(spec, ref):
+            # nothing was computed: the grids the saved simulation stands
+            # for are the only effect of the gridding options left
+            info['grids'] = _same_grids(a['simulation'], b['simulation'])
     # files that must not have been written (override sub-check)
     for rel in spec.get('absent', []):
         if os.path.exists(os.path.join(wd, rel)):
             raise Failure('unexpected_file', f"{rel} was written although "
-                          "the command line names another file")
+                          "another file is the one to be written")
+    for rel, dig in untouched.items():
+        if _file_digest(os.path.join(wd, rel)) != dig:
+            raise Failure('unexpected_file', f"{rel} was overwritten "
+                          "although another file is the one to be written")
     return info
 
 
@@ -1377,7 +1566,8 @@ def case_fn(prefix=''):
             sig = prefix + f.kind + (f":{culprit}" if culprit else '')
             det = dict(f.details)
             det['args'] = cli_args(spec)
-            det['config_text'] = render_config(spec['config'])
+            det['config_text'] = render_config(spec['config'],
+                                               spec.get('layout'))
             raise Violation(sig, f.message, det)
         except Unreadable as e:
             raise HarnessError(f"checker cannot read its own value: {e}")
@@ -1399,6 +1589,14 @@ def classify(spec, rec, info):
     for k in ('load', 'cache', 'save', 'clean', 'layered', 'path'):
         if t.get(k):
             rec.cls(f"flag:{k}")
+    if t.get('long') and (t.get('layered') or t.get('nproc') is not None):
+        rec.cls('flag:long_alias')
+    if t.get('eq') and any(a.startswith('--') and '=' in a
+                           for a in cli_args(spec)):
+        rec.cls('flag:--opt=value')
+    if t.get('verbosity') is not None:
+        rec.cls(f"verbosity:{t['verbosity']}")
+    rec.cls(*layout_classes(spec))
     fm = {os.path.splitext(f[0])[1].lstrip('.') or 'h5' for f in spec['files']
           if f[1] != 'dir'}
     for x in sorted(fm):
@@ -1418,6 +1616,10 @@ def classify(spec, rec, info):
         rec.cls(f"noise:{info['noise']}")
     if info.get('saved'):
         rec.cls('saved_sim_compared')
+    if info.get('grids'):
+        rec.cls('dry_grids_compared')
+        if info.get('forced_dry'):
+            rec.cls('forced_dry:grids_compared')
     opts = [e[:3] for e in spec['config']
             if not (len(e) > 4 and e[4] == 'ctx')]
     flags = [k for k, v in t.items() if k not in ('cfgarg', 'extra')
@@ -1521,7 +1723,10 @@ SINGLE_VALUES = {
     ('gridding_opts', 'properties'): ['1', '1, 2', '0.5, 1, 2, 3',
                                       '1, 1.5, 2, 1, 2, 1.5, 1'],
     ('gridding_opts', 'center'): ['10, -20, -100'],
-    ('gridding_opts', 'cell_number'): ['8, 16, 24, 32, 48, 64', '32, 64'],
+    # the last one is written in all formatting variants: 24^3 cells, i.e.
+    # executed for real and different from the default grid (16^3)
+    ('gridding_opts', 'cell_number'): ['8, 16, 24, 32, 48, 64', '32, 64',
+                                       '24, 32, 48'],
     ('gridding_opts', 'min_width_pps'): ['4', '2, 3, 4'],
     ('gridding_opts', 'domain'): ['-300, 300; -300, 300; -400, -50',
                                   'None; -350, 350; None'],
@@ -1626,6 +1831,16 @@ FLAG_SINGLES = [
     ({'verbosity': '-q'}, False), ({'verbosity': -1}, False),
     ({'verbosity': 0}, False), ({'verbosity': 1}, False),
     ({'verbosity': 2}, False),
+    ({'verbosity': '-vvv'}, False), ({'verbosity': '-v -v'}, False),
+    ({'verbosity': '--verbose'}, False), ({'verbosity': '--quiet'}, False),
+    ({'verbosity': '-vvvv'}, True),
+    ({'verbosity': '--verbose --verbose'}, True),
+    ({'nproc': 1, 'long': True}, False),
+    ({'layered': True, 'long': True}, False),
+    ({'output': 'res.npz', 'save': 'sim.json', 'verbosity': 1, 'eq': True},
+     False),
+    ({'path': 'sub', 'model': 'md', 'nproc': 1, 'long': True, 'eq': True},
+     False),
     ({'fnflag': 'long'}, False), ({'dryflag': 'long'}, True),
     ({'fnflag': 'none'}, False),
     # dry run: shapes for every anisotropy case
@@ -1659,6 +1874,24 @@ def flag_specs(quick):
                          simvar=stored[0], state=stored[1])
             spec['flagcase'] = True
             out.append(spec)
+    # the documented template: verbatim (every value commented out) and
+    # with the lines of the context un-commented
+    spec = _spec(SMALL_PROBLEM, [], 'forward', {'nproc': 1}, False,
+                 layout={'kind': 'rst'})
+    spec['flagcase'] = True
+    out.append(spec)
+    for fn in ['gradient'] if quick else ['misfit', 'gradient']:
+        spec = _spec(SMALL_PROBLEM,
+                     with_context([], CTX_SAME + CTX_W1 + CTX_PLAIN), fn, {},
+                     False, layout={'kind': 'rst'})
+        spec['flagcase'] = True
+        out.append(spec)
+    # all seven sections present but empty, in reverse order
+    spec = _spec(SMALL_PROBLEM, [], 'misfit', {'nproc': 1}, True,
+                 layout={'kind': 'free', 'order': SECTIONS[::-1],
+                         'empty': list(SECTIONS), 'pattern': 4})
+    spec['flagcase'] = True
+    out.append(spec)
     return out
 
 
@@ -1829,6 +2062,37 @@ def _keys(sec):
 
 
 @st.composite
+def layout_spec(draw):
+    """Lay-out of the configuration file (None = plain)."""
+    sf = st.sampled_from
+    kind = draw(sf([None, None, 'rst', 'free', 'free']))
+    if kind is None:
+        return None
+    if kind == 'rst':
+        return {'kind': 'rst'}
+    return {'kind': 'free', 'order': list(draw(st.permutations(SECTIONS))),
+            'empty': draw(st.lists(sf(SECTIONS), unique=True, max_size=4)),
+            'pattern': draw(st.integers(0, 63))}
+
+
+def layout_classes(spec):
+    lay = spec.get('layout')
+    if not lay:
+        return ['layout:plain']
+    out = [f"layout:{lay['kind']}"]
+    if lay['kind'] == 'free':
+        have = {e[0] for e in spec['config']}
+        if any(x not in have for x in lay.get('empty', [])):
+            out.append('layout:empty_known_section')
+        used = [x for x in lay.get('order', []) if x in have]
+        if used != [x for x in SECTIONS if x in have]:
+            out.append('layout:sections_permuted')
+        if int(lay.get('pattern', 0)) & (8 | 32):
+            out.append('layout:comment_lines_between_keys')
+    return out
+
+
+@st.composite
 def combo_spec(draw, exec_='inproc', mode=None, function=None):
     sf = st.sampled_from
     if mode is None:
@@ -1865,8 +2129,11 @@ def combo_spec(draw, exec_='inproc', mode=None, function=None):
                       draw(DECO)))
     elif pth == 'term':
         term['path'] = draw(sf(['sub', 'a/b']))
-    if draw(st.integers(0, 3)) == 0 or mode == 'load':
-        if draw(st.booleans()) or mode == 'load' and draw(st.booleans()):
+    if draw(st.integers(0, 3)) == 0 or mode in ('load', 'auto'):
+        # automatic gridding: always saved (the saved gridding options and
+        # grids are what is left of the options in a forced dry run)
+        if draw(st.booleans()) or mode == 'auto' or \
+                mode == 'load' and draw(st.booleans()):
             name = f"saved.{fmt['save']}"
             if draw(st.booleans()):
                 term['save'] = name
@@ -1886,7 +2153,7 @@ def combo_spec(draw, exec_='inproc', mode=None, function=None):
             term[which] = name
         else:
             fcfg.append(E('files', which, name, draw(DECO)))
-        term['clean'] = draw(sf([False, False, True]))
+        term['clean'] = draw(sf([False, True]))
         if lay_file or draw(st.integers(0, 4)) == 0:
             term['layered'] = True
         # stored simulation of another variant than the survey / model files
@@ -1950,7 +2217,10 @@ def combo_spec(draw, exec_='inproc', mode=None, function=None):
     if mode == 'layered' or draw(st.integers(0, 9)) == 0:
         config += draw(draw_entries('layered', _keys('layered'), prob, 0, 3))
     term['verbosity'] = draw(sf([None, None, None, '-q', '-v', '-vv', 0, -1,
-                                 2]))
+                                 2, 1, '-vvv', '-v -v', '--verbose',
+                                 '--quiet']))
+    term['long'] = draw(st.booleans())
+    term['eq'] = draw(sf([False, False, True]))
     term['fnflag'] = draw(sf(['short', 'short', 'long'] + (
         ['none'] if function == 'forward' else [])))
     term['dryflag'] = draw(sf(['short', 'long']))
@@ -1959,14 +2229,20 @@ def combo_spec(draw, exec_='inproc', mode=None, function=None):
         term['cfgarg'] = draw(st.booleans())
     spec = {'problem': prob, 'config': config, 'function': function,
             'term': term, 'dry': dry, 'exec': exec_, 'cfgname': cfgname,
-            'files': []}
+            'files': [], 'layout': draw(layout_spec())}
     spec['files'] = files_for(spec, state, lay_file, simvar)
     return spec
 
 
 # -------------------------------------------------------------- override
 OVERRIDE_ITEMS = ['survey', 'model', 'output', 'save', 'load', 'cache',
-                  'path', 'nproc', 'layered']
+                  'path', 'nproc', 'layered', 'cache_load', 'cache_save']
+# where cache and the load / save it overrules are given: both in the file,
+# both on the command line, or cache on the command line and the other one
+# in the file.  (cache in the file against --load / --save on the command
+# line is left out: "cache overrules load and save" and "the command line
+# overrules the file" point in opposite directions there.)
+CACHE_LEVELS = ['file', 'term', 'term_over_file']
 
 
 @st.composite
@@ -1984,7 +2260,8 @@ def override_spec(draw, item=None, function=None):
     fa, fb = draw(sf(FORMATS)), draw(sf(FORMATS))
     ctx = CTX_SAME + CTX_PLAIN + CTX_NONOISE
     term = {'cfgarg': True}
-    config, files, absent = [], [], []
+    config, files, absent, untouched = [], [], [], []
+    cachelevel = None
     dry = False
     one = True
     if item in ('survey', 'model'):
@@ -2003,6 +2280,37 @@ def override_spec(draw, item=None, function=None):
         state = draw(sf(['plain', 'computed']))
         files += [[f"sim_A.{fa}", 'sim', 0, state, False],
                   [f"sim_B.{fb}", 'sim', 1, state, False]]
+    elif item in ('cache_load', 'cache_save'):
+        # "cache overrules load and save": sim_A is read AND written;
+        # sim_B (another simulation) is not read, out_B is not written
+        fa = fa if fa != 'json' else 'h5'
+        fb = fb if fb != 'json' else 'npz'
+        level = draw(sf(CACHE_LEVELS))
+        other = 'load' if item == 'cache_load' else 'save'
+        oname = f"sim_B.{fb}" if other == 'load' else f"out_B.{fb}"
+        order = draw(st.booleans())
+        if level == 'file':
+            ents = [E('files', 'cache', f"sim_A.{fa}", draw(DECO)),
+                    E('files', other, oname, draw(DECO))]
+            config += ents if order else ents[::-1]
+        elif level == 'term':
+            term['cache'] = f"sim_A.{fa}"
+            term[other] = oname
+        else:
+            term['cache'] = f"sim_A.{fa}"
+            config.append(E('files', other, oname, draw(DECO)))
+        state = draw(sf(['plain', 'computed']))
+        # sim_A differs from the survey / model files (variant 0) as well
+        files += [[f"sim_A.{fa}", 'sim', 1, state, False]]
+        if other == 'load':
+            files += [[oname, 'sim', 0, state, False]]
+            if draw(st.booleans()):
+                term['clean'] = True
+        else:
+            absent.append(oname)
+        cachelevel = level
+        if other == 'load':
+            untouched.append(oname)
     elif item == 'path':
         config.append(E('files', 'path', 'dirA', draw(DECO)))
         term['path'] = 'dirB'
@@ -2028,6 +2336,9 @@ def override_spec(draw, item=None, function=None):
             'function': function, 'term': term, 'dry': dry,
             'exec': 'inproc', 'files': [], 'absent': absent,
             'override': item}
+    if cachelevel:
+        spec['cachelevel'] = cachelevel
+        spec['untouched'] = untouched
     need = files_for(spec)
     have = {f[0] for f in files}
     spec['files'] = files + [f for f in need if f[0] not in have]
@@ -2044,11 +2355,13 @@ UNKNOWN_FLAGS = [['--foo'], ['--tol', '1e-3'], ['-x'], ['--nprocs', '2'],
 
 
 @st.composite
-def reject_spec(draw, kind=None):
+def reject_spec(draw, kind=None, sec=None, company=None, function=None,
+                stored='draw'):
     sf = st.sampled_from
     if kind is None:
         kind = draw(sf(['key', 'key', 'key', 'section', 'flag']))
-    function = draw(sf(['forward', 'misfit', 'gradient']))
+    if function is None:
+        function = draw(sf(['forward', 'misfit', 'gradient']))
     prob = draw(problem_spec())
     if function != 'forward' and prob['nf'] is None and prob['re'] is None:
         prob['re'] = 0.05
@@ -2056,24 +2369,84 @@ def reject_spec(draw, kind=None):
     config = [e[:4] for e in config]
     term = {'cfgarg': True}
     extra_sections = []
+    dry = draw(st.booleans())
     if kind == 'key':
-        sec = draw(sf(SECTIONS))
+        if sec is None:
+            sec = draw(sf(SECTIONS))
         foreign = [k for (s, k) in TABLE
                    if s != sec and (sec, k) not in TABLE
                    and (sec, k) not in UNDOCUMENTED]
         key = draw(sf(UNKNOWN_KEYS + foreign))
-        config.append(E(sec, key, draw(sf(['1', 'True', 'abc', '0.5'])),
-                        draw(DECO)))
+        bad = E(sec, key, draw(sf(['1', 'True', 'abc', '0.5'])), draw(DECO))
+        # company of the unknown key in its section: 'base' = as in the
+        # fixed context (alone in files/gridding/noise/data/layered, with
+        # the context keys in simulation/solver_opts), 'alone', or 'mixed'
+        # with 1-3 valid keys of that section at a random position
+        if company is None:
+            company = draw(sf(['base', 'alone', 'mixed', 'mixed']))
+        if company == 'base':
+            config.append(bad)
+        else:
+            mine = [e for e in config if e[0] == sec]
+            config = [e for e in config if e[0] != sec]
+            if company == 'alone':
+                mine = []
+            elif sec == 'files':
+                mine = draw(st.lists(sf([
+                    E('files', 'output', 'res.npz'),
+                    E('files', 'survey', 'survey.h5'),
+                    E('files', 'model', 'model.h5'),
+                    E('files', 'path', '.')]), min_size=1, max_size=3,
+                    unique_by=lambda e: e[1]))
+            elif sec == 'simulation':
+                mine = mine + draw(draw_entries(
+                    'simulation', ['name', 'receiver_interpolation'], prob,
+                    0, 2))
+            elif sec == 'gridding_opts':
+                # valid only with automatic gridding: drop 'gridding = same'
+                config = [e for e in config if e[1] != 'gridding']
+                mine = draw(draw_entries('gridding_opts',
+                                         _keys('gridding_opts'), prob, 1, 3))
+                dry = True
+            elif sec == 'layered':
+                mine = draw(draw_entries('layered', _keys('layered'), prob,
+                                         1, 3))
+            elif sec not in ('solver_opts',):
+                mine = draw(draw_entries(sec, _keys(sec), prob, 1, 3))
+            else:
+                mine = mine + draw(draw_entries(
+                    'solver_opts', ['cycle', 'maxit', 'nu_pre', 'verb'],
+                    prob, 0, 2))
+            pos = draw(st.integers(0, len(mine)))
+            mine = [e[:4] for e in mine]
+            config += mine[:pos] + [bad] + mine[pos:]
+            if sec == 'simulation' and not any(
+                    e[1] == 'max_workers' for e in config):
+                term['nproc'] = 1
+        # ... also when a stored simulation is loaded ("almost all
+        # parameters in the config file are ignored" - but not unchecked)
+        if stored == 'draw':
+            stored = draw(sf([None, None, None, 'load', 'cache']))
+        if stored:
+            if draw(st.booleans()) or sec == 'files':
+                term[stored] = 'stored.h5'
+            else:
+                config.insert(0, E('files', stored, 'stored.h5', draw(DECO)))
     elif kind == 'section':
         extra_sections = [draw(sf(UNKNOWN_SECTIONS))]
     else:
         term['extra'] = draw(sf(UNKNOWN_FLAGS))
     spec = {'problem': prob, 'config': config, 'function': function,
-            'term': term, 'dry': draw(st.booleans()), 'exec': 'inproc',
+            'term': term, 'dry': dry, 'exec': 'inproc',
             'extra_sections': extra_sections, 'files': []}
+    spec['layout'] = draw(layout_spec())
+    stored = stored if kind == 'key' else None
+    if kind == 'key':
+        spec['company'] = company + ('+' + stored if stored else '')
     clean = dict(spec, config=[e for e in config if (e[0], e[1]) in TABLE],
-                 term={'cfgarg': True}, extra_sections=[])
-    spec['files'] = files_for(clean)
+                 term={k: v for k, v in term.items() if k != 'extra'},
+                 extra_sections=[])
+    spec['files'] = files_for(clean, 'plain')
     return spec
 
 
@@ -2122,8 +2495,11 @@ def case_override(spec, rec):
                         f"command line must override the configuration "
                         f"file: {f.message}",
                         {'args': cli_args(spec),
-                         'config_text': render_config(spec['config'])})
+                         'config_text': render_config(
+                             spec['config'], spec.get('layout'))})
     rec.cls(f"item:{spec.get('override')}")
+    if spec.get('cachelevel'):
+        rec.cls(f"cache_overrules:{spec['cachelevel']}")
     classify(spec, rec, info)
 
 
@@ -2133,7 +2509,8 @@ def case_reject(spec, rec):
     except Failure as f:
         raise Violation(f.kind, f.message,
                         {'args': cli_args(spec),
-                         'config_text': render_config(spec['config']),
+                         'config_text': render_config(
+                             spec['config'], spec.get('layout')),
                          'extra_sections': spec.get('extra_sections')})
     if info['class'] != 'rejected':
         raise HarnessError("reject generator produced a valid invocation")
@@ -2142,7 +2519,13 @@ def case_reject(spec, rec):
             'flag' if ref_unknown.startswith('flag') else 'key')
     rec.cls(f"kind:{kind}", f"fn:{spec['function']}",
             'dry' if spec.get('dry') else 'real')
-    rec.nt([ref_unknown, spec['function'], bool(spec.get('dry'))])
+    if kind == 'key':
+        rec.cls(f"key_in:{ref_unknown.split('.')[0]}",
+                *[f"company:{c}" for c in
+                  spec.get('company', 'base').split('+')])
+    rec.cls(*layout_classes(spec))
+    rec.nt([ref_unknown, spec['function'], bool(spec.get('dry')),
+            spec.get('company'), (spec.get('layout') or {}).get('kind')])
     rec.note({'unknown': ref_unknown, 'args': cli_args(spec)})
 
 
@@ -2225,10 +2608,20 @@ def run(ctx):
     for i, item in enumerate(OVERRIDE_ITEMS):
         ctx.explore('override', override_spec(item=item), case_override,
                     ctx.n(2, 3), shrink=False, salt=i)
-    for i, (kind, nq, nt) in enumerate((('key', 24, 40), ('section', 4, 5),
+    for i, (kind, nq, nt) in enumerate((('key', 3, 12), ('section', 4, 5),
                                         ('flag', 5, 6))):
         ctx.explore('reject', reject_spec(kind=kind), case_reject,
                     ctx.n(nq, nt), shrink=False, salt=i)
+    # unknown key: every section x company of valid keys in that section
+    i = 10
+    for sec in SECTIONS:
+        for company, nq, nt in (('base', 1, 2), ('alone', 1, 2),
+                                ('mixed', 2, 3)):
+            i += 1
+            stored = [None, 'load', None, 'cache'][(i - 11) % 4]
+            ctx.explore('reject', reject_spec('key', sec, company,
+                                              fns[(i + i//3) % 3], stored),
+                        case_reject, ctx.n(nq, nt), shrink=False, salt=i)
     ctx.explore('subproc', combo_spec('subproc'), case_subproc,
                 ctx.n(1, 2), shrink=False)
     ctx.enumerate('info', [{'flag': '--version'},
